@@ -37,7 +37,13 @@ ARITH = 'machine arithmetic treated as mathematical: floats are extended reals (
 
 
 SPECS = []          # Spec objects, in report order
+ALL_KEYS = set()    # keys of the findings the specifications know about
 NATIVE_FN = {}      # spec name -> name of the native runner in replay/c18_replay.py (falsification of unproved clauses)
+
+
+def key(k):
+    ALL_KEYS.add(k)
+    return k
 
 
 def mod():
@@ -389,8 +395,8 @@ def unwarp_first_steps(sc, p):
 
 
 # =========================================================================================== LogWarperComponent
-K_LOG_CONST = 'log_constant_labels'
-K_LOG_OFFSET1 = 'log_offset_one'
+K_LOG_CONST = key('log_constant_labels')
+K_LOG_OFFSET1 = key('log_offset_one')
 
 
 def log_entry(roundtrip):
@@ -462,3 +468,283 @@ Spec('InfeasibleWarperComponent.unwarp[first]', ['InfeasibleWarperComponent.unwa
 Spec('LogWarperComponent.warp', ['LogWarperComponent.warp', '_validate_labels'], log_entry(False), log_steps, skip_strong=log_skip, native='log')
 Spec('LogWarperComponent.unwarp', ['LogWarperComponent.unwarp', 'LogWarperComponent.warp'], log_entry(True), log_roundtrip_steps, skip_strong=log_skip,
      native='log_roundtrip')
+
+
+# =========================================================================================== HalfRankComponent.warp
+K_HR_NAN = key('halfrank_nan_rank')
+K_HR_ALLNAN = key('halfrank_all_nan_indexerror')
+HR_LOOP = (OW, 'HalfRankComponent.warp', 1)
+
+
+def _mentions(run, t, prefix, depth=3):
+    """does the (named) float scalar `t` depend on a constant whose name starts with `prefix`?"""
+    defs = run.__dict__.get('named_defs', {})
+    seen, todo = set(), [(t, 0)]
+    while todo:
+        x, d = todo.pop()
+        if x.get_id() in seen:
+            continue
+        seen.add(x.get_id())
+        if z3.is_const(x) and x.decl().kind() == z3.Z3_OP_UNINTERPRETED:
+            if x.decl().name().startswith(prefix):
+                return True
+            if x.get_id() in defs and d < depth:
+                todo.append((defs[x.get_id()], d + 1))
+        todo.extend((ch, d) for ch in x.children())
+    return False
+
+
+def halfrank_roles(it, env):
+    """the locals of HalfRankComponent.warp at loop entry, found by what they ARE (never by their names)"""
+    run = it.run
+    ranks = [v for v in env.values() if isinstance(v, NDArray) and hasattr(v, 'ranks_of')]
+    uniq = [v for v in env.values() if isinstance(v, NDArray) and hasattr(v, 'unique_of')]
+    if len(ranks) != 1 or len(uniq) != 1:
+        raise Unsupported('loop contract of HalfRankComponent.warp: expected one rankdata(...) result and one np.unique(...) result among the locals')
+    ranks, uniq = ranks[0], uniq[0]
+    labels = [k for k, v in env.items() if v is ranks.ranks_of[0]]
+    if len(labels) != 1:
+        raise Unsupported('loop contract of HalfRankComponent.warp: the array passed to rankdata is not a (single) local')
+    scal = {}
+    for k, v in env.items():
+        if isinstance(v, float):
+            v = X.lit(v)
+        if z3.is_expr(v) and v.sort() == X.XReal:
+            scal[k] = v
+    med = [k for k, v in scal.items() if z3.is_const(v) and v.decl().name().startswith('nanmedian!')]
+    if len(med) != 1:
+        raise Unsupported('loop contract of HalfRankComponent.warp: expected exactly one np.nanmedian(...) result among the locals')
+    den = [k for k, v in scal.items() if k != med[0] and _mentions(run, v, 'ssplit!')]
+    std = [k for k, v in scal.items() if k != med[0] and k not in den]
+    if len(den) != 1 or len(std) != 1:
+        raise Unsupported('loop contract of HalfRankComponent.warp: cannot identify the rank denominator / the estimated std among the float locals %s'
+                          % sorted(scal))
+    ss = [v for v in env.values() if z3.is_expr(v) and v.sort() == z3.IntSort() and z3.is_const(v) and v.decl().name().startswith('ssplit!')]
+    return {'labels': labels[0], 'ranks': ranks, 'u': uniq, 'median': scal[med[0]], 'den': scal[den[0]], 'std': scal[std[0]], 's': ss[0] if len(ss) == 1 else None}
+
+
+def halfrank_value(ranks, median, den, std):
+    """what the warper writes for a finite label below the median: ppf(0.5 * (rank - 0.5) / denominator) * std + median"""
+    def q(j):
+        return W.xdiv(X.mul(X.lit(0.5), X.sub(ranks.at(j), X.lit(0.5))), den)
+    return q, (lambda j: X.add(X.mul(W.xppf(q(j)), std), median))
+
+
+def halfrank_inv(it, fr, ctx):
+    R = halfrank_roles(it, ctx.entry_env)
+    cur, ent = fr.env[R['labels']], ctx.entry_vals[R['labels']]
+    q, val = halfrank_value(R['ranks'], R['median'], R['den'], R['std'])
+    spec = lambda j: z3.If(z3.And(X.is_fin(ent.at(j)), X.lt(ent.at(j), R['median'])), val(j), ent.at(j))
+    R.update(ent=ent, q=q, val=val)
+    it.run.c18['loop'] = R
+    if ctx.phase == 'head':
+        it.run.c18['ax0'] = len(it.run.axioms)
+    i = ctx.i
+    return [('pointwise_map', QA(cur.shape[0], lambda j: cur.at(j) == z3.If(j < i, spec(j), ent.at(j))))]
+
+
+def halfrank_entry(it):
+    run = it.run
+    inp = fresh_labels(it)
+    obj = make(it, 'HalfRankComponent', _unwarper=None)
+    run.c18['obj'] = obj
+    for a in W.math_axioms():
+        run.axiom(a)
+    return call(it, obj, 'warp', inp)
+
+
+def halfrank_skip(p):
+    L = p.run.c18.get('loop')
+    if L is not None and L['ranks'].ranks_of[2] == 'propagate':
+        return {K_HR_NAN, K_HR_ALLNAN}
+    return {K_HR_ALLNAN}
+
+
+def no_finite(c):
+    return QA(c['n'], lambda t: z3.Not(X.is_fin(c['f0'](t, 0))))
+
+
+def halfrank_steps(sc, p):
+    c = p.run.c18
+    n, f0 = c['n'], c['f0']
+    y = validated(f0)
+    if p.kind == 'raise':
+        return raise_steps(sc, p, known=(K_HR_ALLNAN, lambda p_: no_finite(c)))
+    out = p.value
+    o = lambda t: out.at(t, 0)
+    sc.step('input_not_modified', isinstance(out, NDArray) and out is not c['inp'] and not_modified(c), claim=True)
+    sc.step('shape_preserved', shape_is(out, n), claim=True)
+    sc.step('nan_untouched', z3.Implies(z3.And(rng(n, I_), X.is_nan(y(I_))), X.is_nan(o(I_))), claim=True, mode='tail')
+    L = c.get('loop')
+    nonan = QA(n, lambda t: X.is_fin(f0(t, 0)))
+    G = sc.hyp(K_HR_NAN, nonan)
+    fin2 = z3.And(rng(n, I_, J_), X.is_fin(y(I_)), X.is_fin(y(J_)))
+    if L is None:
+        # size-1 shortcut (or no loop): the validated copy is returned as it is
+        sc.step('identity_without_loop', z3.Implies(rng(n, I_), o(I_) == y(I_)))
+        for nm in ('top_half_unchanged', 'finite_to_finite'):
+            sc.step(nm, z3.Implies(z3.And(rng(n, I_), X.is_fin(y(I_))), o(I_) == y(I_)), claim=True, mode='iso', uses=['identity_without_loop'])
+        sc.step('below_median_mapped_strictly_below', True, claim=True)
+        sc.step('order_of_finite_preserved', z3.Implies(z3.And(fin2, X.lt(y(I_), y(J_))), X.lt(o(I_), o(J_))), claim=True, mode='iso', uses=['identity_without_loop'])
+        sc.step('ties_preserved', z3.Implies(z3.And(fin2, y(I_) == y(J_)), o(I_) == o(J_)), claim=True, mode='iso', uses=['identity_without_loop'])
+        return
+    med, den, std, ranks, u, s = L['median'], L['den'], L['std'], L['ranks'], L['u'], L['s']
+    root, vs, uf, wit = u.unique_of
+    cnt, K = vs.cnt, vs.K
+    q, val = L['q'], L['val']
+    below = lambda t: z3.And(X.is_fin(y(t)), X.lt(y(t), med))
+    c_ = lambda t: cnt(X.r(y(t)))
+    H1, H2 = z3.And(rng(n, I_), G), z3.And(rng(n, I_, J_), G)
+    # -- what the loop did (from the loop invariant at loop exit)
+    sc.step('loop_exit_unchanged', z3.Implies(z3.And(rng(n, I_), z3.Not(below(I_))), o(I_) == y(I_)), mode='tail')
+    sc.step('loop_exit_value', z3.Implies(z3.And(rng(n, I_), below(I_)), o(I_) == val(I_)), mode='tail')
+    sc.step('top_half_unchanged', z3.Implies(z3.And(rng(n, I_), X.is_fin(y(I_)), X.le(med, y(I_))), o(I_) == y(I_)), claim=True, mode='iso', uses=['loop_exit_unchanged'])
+    # -- library facts at the two indices
+    sc.step('median_finite', z3.Implies(z3.And(rng(n, I_), X.is_fin(y(I_))), X.is_fin(med)))
+    sc.step('count_range', z3.Implies(z3.And(rng(n, I_), X.is_fin(y(I_))), z3.And(c_(I_) >= 0, c_(I_) < K)))
+    sc.step('count_monotone', z3.Implies(z3.And(fin2, X.lt(y(I_), y(J_))), c_(I_) < c_(J_)))
+    sc.step('count_equal', z3.Implies(z3.And(fin2, y(I_) == y(J_)), c_(I_) == c_(J_)), mode='iso')
+    sc.step('rank_value', z3.Implies(z3.And(H1, X.is_fin(y(I_))), ranks.at(I_) == X.fin(z3.ToReal(c_(I_) + 1))), known=K_HR_NAN)
+    sc.step('rank_equal', z3.Implies(z3.And(fin2, y(I_) == y(J_)), ranks.at(I_) == ranks.at(J_)), uses=['count_equal'])
+    if s is not None:
+        sc.step('rank_at_most_median_index', z3.Implies(z3.And(rng(n, I_), below(I_)), c_(I_) + 1 <= s))
+        sc.step('denominator_value', z3.Implies(rng(n, I_), z3.And(X.is_fin(den), X.r(den) >= z3.ToReal(s), X.r(den) <= z3.ToReal(s) + z3.Q(1, 2))))
+    sc.step('std_positive', z3.Implies(z3.And(rng(n, I_), below(I_)), z3.And(X.is_fin(std), X.r(std) > 0)))
+    # -- arithmetic of the rank quantile (quantifier-free, from the lemmas above)
+    base = ['median_finite', 'count_range', 'count_monotone', 'count_equal', 'rank_value', 'rank_at_most_median_index', 'denominator_value', 'std_positive']
+    sc.step('quantile_in_lower_half', z3.Implies(z3.And(H1, below(I_)), z3.And(X.is_fin(q(I_)), X.r(q(I_)) > 0, X.r(q(I_)) < z3.Q(1, 2))),
+            mode='iso', uses=base, known=K_HR_NAN)
+    sc.step('quantile_monotone', z3.Implies(z3.And(H2, below(I_), below(J_), X.lt(y(I_), y(J_))), X.r(q(I_)) < X.r(q(J_))), mode='iso',
+            uses=base + ['quantile_in_lower_half'], known=K_HR_NAN)
+    sc.step('quantile_equal', z3.Implies(z3.And(H2, below(I_), below(J_), y(I_) == y(J_)), q(I_) == q(J_)), mode='iso', uses=base, known=K_HR_NAN)
+    arith = base + ['quantile_in_lower_half', 'quantile_monotone', 'quantile_equal', 'loop_exit_unchanged', 'loop_exit_value']
+    # -- the clauses
+    sc.step('below_median_mapped_strictly_below', z3.Implies(z3.And(H1, below(I_)), z3.And(X.is_fin(o(I_)), X.lt(o(I_), med))), claim=True, mode='iso',
+            uses=arith, known=K_HR_NAN)
+    sc.step('finite_to_finite', z3.Implies(z3.And(H1, X.is_fin(y(I_))), X.is_fin(o(I_))), claim=True, mode='iso',
+            uses=arith + ['below_median_mapped_strictly_below'], known=K_HR_NAN)
+    sc.step('order_below_median', z3.Implies(z3.And(H2, below(I_), below(J_), X.lt(y(I_), y(J_))), X.lt(o(I_), o(J_))), mode='iso', uses=arith, known=K_HR_NAN)
+    sc.step('order_of_finite_preserved', z3.Implies(z3.And(H2, fin2, X.lt(y(I_), y(J_))), X.lt(o(I_), o(J_))), claim=True, mode='iso',
+            uses=arith + ['below_median_mapped_strictly_below', 'order_below_median'], known=K_HR_NAN)
+    sc.step('ties_preserved', z3.Implies(z3.And(fin2, y(I_) == y(J_)), o(I_) == o(J_)), claim=True, mode='iso',
+            uses=['loop_exit_unchanged', 'loop_exit_value', 'count_equal', 'rank_equal'])
+    # -- the state saved for unwarp
+    uw = c['obj'].attrs.get('_unwarper')
+    ok = isinstance(uw, Obj) and all(isinstance(uw.attrs.get(k), NDArray) for k in ('_original_labels', '_warped_labels'))
+    sc.step('unwarper_saved', bool(ok), claim=True)
+    if ok:
+        ol, wl = uw.attrs['_original_labels'], uw.attrs['_warped_labels']
+        kk = z3.And(I_ >= 0, I_ < J_, J_ < K)
+        sc.step('unwarper_table_sizes', z3.And(zi(ol.shape[0]) == K, zi(wl.shape[0]) == K), claim=True)
+        sc.step('unwarper_originals_strictly_ascending', z3.Implies(kk, z3.And(X.is_fin(ol.at(I_)), X.is_fin(ol.at(J_)), X.lt(ol.at(I_), ol.at(J_)))), claim=True)
+        B = getattr(wl, 'gather_of', None)
+        pos = None
+        if B is not None and getattr(B[0], 'mask_read', None) is not None:
+            hit = p.run.__dict__.get('np_masks', {}).get(id(B[0].mask_read[1].fn))
+            if hit is not None:
+                cntm, sel, rnk = hit[1]
+                pos = lambda t: sel(B[1].at(t))
+        om = X.lift(uw.attrs.get('_original_label_median'))
+        if pos is not None:
+            sc.step('largest_label_unchanged', z3.Implies(K >= 1, z3.And(X.is_fin(med), X.le(med, ol.at(K - 1)), wl.at(K - 1) == ol.at(K - 1))))
+            sc.step('unwarper_saved_median_at_most_largest_warped', z3.Implies(K >= 1, X.le(om, wl.at(K - 1))), claim=True, uses=['largest_label_unchanged'])
+        if pos is not None:
+            tk = z3.And(I_ >= 0, I_ < K)
+            sc.step('unwarper_table_pairs_observed_label_with_its_warped_value',
+                    z3.Implies(tk, z3.And(pos(I_) >= 0, pos(I_) < n, y(pos(I_)) == ol.at(I_), o(pos(I_)) == wl.at(I_))), claim=True)
+        else:
+            sc.step('unwarper_table_pairs_observed_label_with_its_warped_value', False, claim=True)
+
+
+Spec('HalfRankComponent.warp', ['HalfRankComponent.warp', 'HalfRankComponent._estimate_std_of_good_half', '_validate_labels'], halfrank_entry, halfrank_steps,
+     skip_strong=halfrank_skip, loops=[(HR_LOOP, E.LoopSpec(halfrank_inv))], native='halfrank')
+
+
+# =========================================================================================== HalfRankComponent._estimate_std_of_good_half
+def goodstd_entry(it):
+    run = it.run
+    K = run.fresh('K', z3.IntSort())
+    run.assume(K >= 1)
+    u = NP.fresh_array(run, 'u', (K,), 'float')
+    thr = run.fresh('thr', z3.RealSort())
+    a, b = run.fresh('a', z3.IntSort()), run.fresh('b', z3.IntSort())
+    f = u.fn
+    NP.fact(run, QA(K, lambda t: X.is_fin(f(t))))
+    NP.fact(run, QA2(K, lambda t1, t2: X.r(f(t1)) < X.r(f(t2))))
+    run.assume(z3.And(a >= 0, a < K, X.r(f(a)) >= thr))            # some label is >= the threshold (the threshold is the median)
+    run.c18 = {'u': u, 'thr': thr, 'K': K, 'b': b, 'u_fn': u.fn}
+    for ax in W.math_axioms():
+        run.axiom(ax)
+    obj = make(it, 'HalfRankComponent', _unwarper=None)
+    return call(it, obj, '_estimate_std_of_good_half', u, X.fin(thr))
+
+
+def goodstd_steps(sc, p):
+    c = p.run.c18
+    if p.kind == 'raise':
+        return sc.step('no_exception', z3.BoolVal(False), claim=True)
+    r = X.lift(p.value)
+    f, b, K, thr = c['u_fn'], c['b'], c['K'], c['thr']
+    sc.step('argument_not_modified', c['u'].fn is c['u_fn'], claim=True)
+    sc.step('finite_and_nonnegative', z3.And(X.is_fin(r), X.r(r) >= 0), claim=True)
+    sc.step('positive_when_some_label_differs_from_threshold', z3.Implies(z3.And(b >= 0, b < K, X.r(f(b)) != thr), z3.And(X.is_fin(r), X.r(r) > 0)), claim=True)
+
+
+Spec('HalfRankComponent._estimate_std_of_good_half', ['HalfRankComponent._estimate_std_of_good_half'], goodstd_entry, goodstd_steps, native='goodstd')
+
+
+# =========================================================================================== _HalfRankUnwarper.unwarp
+K_UNW_MEDIAN = key('halfrank_unwarp_median_mismatch')
+K_UNW_CLOSE = key('halfrank_unwarp_isclose_index')
+
+
+def unwarper_entry(exact):
+    def entry(it):
+        run = it.run
+        K = run.fresh('K', z3.IntSort())
+        run.assume(K >= 1)
+        ol, wl = NP.fresh_array(run, 'orig', (K,), 'float'), NP.fresh_array(run, 'warped', (K,), 'float')
+        om = run.fresh('omed', z3.RealSort())
+        fo, fw = ol.fn, wl.fn
+        # class invariant of _HalfRankUnwarper as established by HalfRankComponent.warp (clauses unwarper_*): both tables finite and
+        # strictly ascending, same length
+        for f in (fo, fw):
+            NP.fact(run, QA(K, lambda t: X.is_fin(f(t))))
+            t1, t2 = z3.Int('tb!1'), z3.Int('tb!2')
+            run.axiom(z3.ForAll([t1, t2], z3.Implies(z3.And(t1 >= 0, t1 < t2, t2 < K), X.r(f(t1)) < X.r(f(t2))), patterns=[z3.MultiPattern(f(t1), f(t2))]))
+        run.assume(om <= X.r(fw(K - 1)))              # clause unwarper_saved_median_at_most_largest_warped of HalfRankComponent.warp
+        k = run.fresh('k', z3.IntSort())
+        run.assume(z3.And(k >= 0, k < K))
+        lab = run.fresh('label', z3.RealSort())
+        if exact:
+            run.assume(lab == X.r(fw(k)))            # the label is the warped value of the k-th observed value
+        obj = make(it, '_HalfRankUnwarper', _original_labels=ol, _warped_labels=wl, _original_label_median=X.fin(om))
+        run.c18 = {'K': K, 'ol': ol, 'wl': wl, 'fo': fo, 'fw': fw, 'om': om, 'k': k, 'lab': lab}
+        return call(it, obj, 'unwarp', X.fin(lab))
+    return entry
+
+
+def unwarper_steps(exact):
+    def steps(sc, p):
+        c = p.run.c18
+        if p.kind == 'raise':
+            return sc.step('no_exception', z3.BoolVal(False), claim=True)
+        r = X.lift(p.value)
+        fo, fw, k, lab, om, K = c['fo'], c['fw'], c['k'], c['lab'], c['om'], c['K']
+        sc.step('tables_not_modified', c['ol'].fn is fo and c['wl'].fn is fw, claim=True)
+        if not exact:
+            sc.step('identity_at_or_above_saved_median', z3.Implies(lab >= om, r == X.fin(lab)), claim=True)
+            return
+        close = W._np_isclose(None, [fw(z3.IntVal(1)), X.fin(lab)], {})
+        not_med = sc.hyp(K_UNW_MEDIAN, z3.Not(z3.And(lab >= om, fw(k) != fo(k))))
+        not_close = sc.hyp(K_UNW_CLOSE, z3.Not(z3.And(lab < om, k >= 2, close)))
+        sc.step('returns_original_of_observed_warped_value', z3.Implies(z3.And(not_med, not_close), r == fo(k)), claim=True, known=(K_UNW_MEDIAN, K_UNW_CLOSE))
+    return steps
+
+
+def unwarper_skip(p):
+    return {K_UNW_MEDIAN, K_UNW_CLOSE}
+
+
+Spec('_HalfRankUnwarper.unwarp', ['_HalfRankUnwarper.unwarp'], unwarper_entry(True), unwarper_steps(True), skip_strong=unwarper_skip, native='unwarper')
+Spec('_HalfRankUnwarper.unwarp[any label]', ['_HalfRankUnwarper.unwarp'], unwarper_entry(False), unwarper_steps(False), native='unwarper_any')
